@@ -180,6 +180,24 @@ func checkCmd(w *world, prop, tier string, seed int, opts *runOpts, expectMode b
 	}
 	tagged := len(cons)
 	cons = w.relyClosure(cons)
+	// bounded stand-ins accompany the assumed contracts they stand for: when the check relies on an assumed contract of a
+	// package, the bounded harnesses of that package run with it (they are reported under `bounded`, never as proof)
+	{
+		have := map[*Contract]bool{}
+		assumedPkg := map[string]bool{}
+		for _, c := range cons {
+			have[c] = true
+			if c.Flags["assumed"] {
+				assumedPkg[c.PkgPath] = true
+			}
+		}
+		for _, c := range w.all {
+			if c.Flags["bounded"] && assumedPkg[c.PkgPath] && !have[c] {
+				have[c] = true
+				cons = append(cons, c)
+			}
+		}
+	}
 	relied := len(cons) - tagged
 	_ = relied
 	if len(cons) == 0 {
@@ -316,7 +334,7 @@ func checkCmd(w *world, prop, tier string, seed int, opts *runOpts, expectMode b
 	// counts legitimately change under harmless refactors)
 	counts := map[string]int{}
 	for _, o := range all {
-		if strings.HasPrefix(o.Kind, "ensures") || o.Kind == "field-invariant" {
+		if strings.HasPrefix(o.Kind, "ensures") || o.Kind == "field-invariant" || o.Kind == "delegates" || o.Kind == "calls-only" {
 			counts[expectedKey(o)] = 1
 		}
 	}
